@@ -5,6 +5,7 @@ mod cl;
 mod ex;
 mod exec;
 mod h1;
+mod h2r;
 mod mp;
 mod pc;
 mod resp;
@@ -93,6 +94,7 @@ fn main() {
         "C06" => go!(h1::H1Rig { prop: "C06" }),
         "C07" => go!(pc::PcRig),
         "C12" => go!(ex::ExRig),
+        "C08" => go!(h2r::H2Rig),
         "C11" => go!(wk::WkRig),
         "C13" => go!(cc::CcRig),
         "C17" => go!(cl::ClRig),
